@@ -28,6 +28,7 @@ type p2Case struct {
 	Extra       []string      `json:"extra,omitempty"`  // unrelated files to drop beside the set (C02)
 	FailWrite   int           `json:"failwrite,omitempty"` // C02: the k-th write during Repair fails without effect (0 = none)
 	AutoPrune   bool          `json:"autoprune,omitempty"` // C16: delete recovery files so that exactly as many blocks remain as slices are unfindable
+	PriorGen    int           `json:"priorgen,omitempty"` // history inside the process: first Verify (1) or Repair (2) another generation of the same set (same names, lengths, first 16 KiB, hence the same file ids and set id; other content)
 	RecDamaged  bool          `json:"recdamaged,omitempty"` // C03: a recovery file was damaged (not as Create wrote it): Verify may refuse with an error, but a verdict must count exactly the blocks that are still intact
 	DiskTwin    bool          `json:"disktwin,omitempty"`  // additionally run the same directory through the exported API on a real directory and require the same observations
 }
@@ -74,6 +75,24 @@ func runP2(c *p2Case, r *core.Rec, cl p2Clauses) *p2Run {
 	}
 	for i, e := range c.Extra {
 		fs.Put(e, scen.Garbage(r.Seed, 400+i, 9))
+	}
+	if c.PriorGen != 0 {
+		tw := c.Cfg
+		tw.Generation = c.Cfg.Generation + 1
+		if ts, terr := scen.GetP2(tw, r.Seed); terr == nil {
+			if ts.Ref.SetID != s.Ref.SetID {
+				r.Note("prior generation does not share the set id (files not above 16 KiB?)")
+			}
+			tfs := ts.FS0.Clone()
+			var to scen.P2Obs
+			if c.PriorGen == 2 {
+				tfs.Del(ts.Paths[0])
+				ts.ObserveRepair(tfs, c.G, false, &to)
+			} else {
+				ts.ObserveVerify(tfs, c.G, &to)
+			}
+			r.AddTransitions(1)
+		}
 	}
 	t := s.Truth(fs)
 	if c.AutoPrune {
@@ -355,5 +374,27 @@ func diskTwinP2(s *scen.P2Set, start *envfs.FS, o *scen.P2Obs, c *p2Case, r *cor
 	}
 	if d := envfs.Diff(readTree(root), o.After); len(d) > 0 {
 		r.Violatef("disk-run-differs-from-in-memory-run:final-directory", "after Repair the real directory differs from the in-memory one in %v", d)
+	}
+}
+
+// genGenerationCases emits scenarios on a set whose files are larger than 16 KiB, each preceded - in the same
+// process - by a Verify or a Repair of ANOTHER GENERATION of that set: same names, lengths, slice size and first
+// 16 KiB, therefore the same file ids and the same recovery-set id, but other content beyond 16 KiB. Anything keyed
+// by set id or file id that survives a call (a cache, a pool) then hands this set the other generation's data.
+// Damage is chosen so that exactly as many slices are lost as there are recovery blocks (no spare to hide behind).
+func genGenerationCases(emit func(*p2Case), autoPrune bool) {
+	for gen := 0; gen <= 1; gen++ {
+		cfg := scen.P2Config{Sizes: []int{20000, 17001}, Slice: 1000, Blocks: 3, Class: "uniq", G: 2, Generation: gen}
+		for _, d := range [][]scen.Dmg{
+			nil,
+			{{Op: "ovw", F: 0, At: 17}},
+			{{Op: "ovw", F: 0, At: 17}, {Op: "ovw", F: 0, At: 18}, {Op: "ovw", F: 1, At: 16}},
+			{{Op: "ins", F: 0, At: 16500, N: 7}},
+			{{Op: "cut", F: 1, At: 16400, N: 700}},
+		} {
+			for prior := 1; prior <= 2; prior++ {
+				emit(&p2Case{Cfg: cfg, Dmg: d, G: 2, PriorGen: prior, DoubleCheck: prior == 2, AutoPrune: autoPrune && len(d) > 0})
+			}
+		}
 	}
 }
